@@ -30,14 +30,20 @@ class SameNamedTransform:
             x.owner = frozenset([f"param:probe_{be}"])      # the caller's array: any write to it breaks C14
             with ctx.scope():
                 ctx.assume(z3.And(z3.Int("probe_n") >= 1, z3.Int("probe_m") >= 1), why="probe dims")
-                for kw in ({}, {"axis": 0} if self.name in ("fft", "ifft", "rfft", "irfft", "hfft", "ihfft") else {"norm": "ortho"}):
+                kws = [{}, {"axis": 0} if self.name in ("fft", "ifft", "rfft", "irfft", "hfft", "ihfft") else {"norm": "ortho"}]
+                if self.name.endswith("n"):
+                    kws += [{"s": (3,)}, {"s": (3,), "axes": (0,)}]        # a length without axes: the LAST axis (scipy)
+                for kw in kws:
                     try:
                         r = interp.call(got, (x,), dict(kw), ctx)
                     except PyExc as e:
                         ctx.oblige(f"{name}.{be}.callable", False, "post", {"got": e.kind, "msg": e.msg})
                         continue
-                    ref = FftFunc(self.name, wrapped=(be == "dask"))
-                    want = interp.call(ref, (x,), dict(kw), ctx)
+                    # the reference is the scipy transform in either case (C20: "what the reference implementation of
+                    # that same-named transform returns ... and, lazily, on Dask arrays"), not the dask wrapper
+                    x_ref = SArr(x.shape, x.elem, x.dtype, "numpy")
+                    w = interp.call(FftFunc(self.name), (x_ref,), dict(kw), ctx)
+                    want = SArr(w.shape, w.elem, w.dtype, be) if isinstance(w, SArr) else w
                     compare_values(interp, ctx, f"{name}.{be}{sorted(kw)}", r, want)
 
     def compare_concrete(self, got, where, out, pb):
@@ -46,6 +52,7 @@ class SameNamedTransform:
         import dask.array as da
         from pyvc.concrete import Mismatch
         rng = np.random.default_rng(0)
+        real_in_ = self.name in ("rfft", "rfft2", "rfftn", "ihfft")
         x = rng.standard_normal((6, 4)) + 1j * rng.standard_normal((6, 4))
         if self.name in ("rfft", "rfft2", "rfftn", "ihfft"):
             x = np.ascontiguousarray(x.real)        # real-input transforms
@@ -64,9 +71,30 @@ class SameNamedTransform:
             out.append(Mismatch(where + ".dask.lazy", type(d).__name__, "dask Array"))
         elif not np.allclose(d.compute(), b):
             out.append(Mismatch(where + ".dask.values", "differs", "scipy.fft." + self.name))
+        # C20 "for any axis/axes and length arguments": lengths with and without axes, both back ends, Dask chunked
+        # only along axis 0 (never transformed here)
+        yl = rng.standard_normal((2, 5, 6)) + (0 if real_in_ else 1j * rng.standard_normal((2, 5, 6)))
+        nd = self.name.endswith("2") or self.name.endswith("n")
+        forms = ([{"s": (4, 7)}, {"s": (4, 7), "axes": (1, 2)}, {"s": (7, 3), "axes": (2, 1)}, {"axes": (2, 1)}] if nd
+                 else [{"n": 4}, {"n": 9}, {"n": 7, "axis": 1}, {"axis": 1}])
+        for kw in forms:
+            lab = ",".join(f"{k}={v}" for k, v in kw.items())
+            try:
+                b = ref(yl, **kw)
+            except Exception:
+                continue
+            for be in ("numpy", "dask"):
+                try:
+                    a = got(yl if be == "numpy" else da.from_array(yl, chunks=(1, -1, -1)), **kw)
+                    av = a.compute() if be == "dask" else a
+                except Exception as e:
+                    out.append(Mismatch(f"{where}.{be}.length-args[{lab}]", f"{type(e).__name__}: {e}"[:140], f"scipy.fft.{self.name} result of shape {b.shape}"))
+                    continue
+                if a.shape != b.shape or a.dtype != b.dtype or not np.allclose(av, b):
+                    out.append(Mismatch(f"{where}.{be}.length-args[{lab}]", f"{a.dtype}{a.shape}", f"{b.dtype}{b.shape} (scipy.fft.{self.name})"))
         # C20 "values, shape, dtype": every input dtype, both backends; the Dask result must declare (lazily) and
         # deliver the reference dtype
-        real_in = self.name in ("rfft", "rfft2", "rfftn", "ihfft")
+        real_in = real_in_
         for code in ("?", "i1", "u1", "i2", "u2", "i4", "i8", "f2", "f4", "f8", "c8", "c16"):
             if code.startswith("c") and real_in:
                 continue
